@@ -300,6 +300,7 @@ void mutate(World &W, Peer &p, Exchange &x, std::vector<Bytes> &pdus, const J &m
 				std::advance(it, (long)((uint64_t)m.geti("at") % x.base_spki.size()));
 				key = *it;
 			}
+			W.ski_universe.insert(key.ski); // (the table is enumerated by looking up every SKI that was ever on the wire)
 			Bytes a = pdu_router_key(rv, key, 1), wd = pdu_router_key(rv, key, 0);
 			pdus.insert(pdus.begin() + (long)ins, a);
 			eod = -1;
